@@ -9,8 +9,8 @@ from harness.framework import CaseTimeout, Suite
 
 PID = "C17"
 LEAN_MODS = ["SwcVerif.Props.C17", "SwcVerif.Props.C17Gen"]
-TRANSLATE_ALGO = ["AlgoMst"]     # Gen/AlgoMst.lean is regenerated on every run from transforms/mst.py (the greedy loop of PointsToCuntzMST.__call__)
-DRIVER_FILES = ["SwcVerif/Model/AlgoRunMst.lean"]
+TRANSLATE_ALGO = ["AlgoMst", "AlgoMstFront"]     # (AlgoMstFront: the whole __call__ up to the tree construction) Gen/AlgoMst.lean is regenerated on every run from transforms/mst.py (the greedy loop of PointsToCuntzMST.__call__)
+DRIVER_FILES = ["SwcVerif/Model/AlgoRunMst.lean", "SwcVerif/Model/AlgoRunMstFront.lean"]
 THEOREMS = ["C17.init_inv", "C17.greedy_step", "C17.step_inv", "C17.spanning", "C17.branching_limit", "C17.prim_step", "C17.prim_minimal", "C17.prim_attains",
             # the array library of the translator: the masked `argmin` is the FIRST least unmasked cell in row-major order
             "Py.maArgmin_spec", "Py.unravelIndex_nat",
@@ -620,8 +620,95 @@ class GenLoopSuite(Suite):
         return len(case["points"]) >= 3
 
 
+class GenCallSuite(Suite):
+    """The WHOLE `PointsToCuntzMST.__call__` / `PointsToMST.__call__` as GENERATED from the source (`gmstcall`: soma handling, distance matrix,
+    greedy loop, assembly of the table) against the real call with `sort=False`: ids, types, the radius and the parents compared exactly, x, y, z of
+    the tree against the float32 cast (`Tree.__init__`) of the generated float64 columns.
+    The vector norm is a parameter of the generated definition: it is given the float norms the library computes, as exact rationals (a table
+    difference vector -> norm; a cloud in which one exact difference vector would need two different float norms is skipped). A soma that is not a
+    triple must raise in both."""
+    name = "c17.gencall"
+
+    def cases(self, rng, tier, widen):
+        out = []
+        for n in (1, 2, 3, 4, 5, 7):
+            for k in (-1, 1, 2, 0):
+                for soma in ("none", "list", "array"):
+                    lattice = rng.random() < 0.6
+                    pts = cloud(rng, n + (soma != "none"), dim=rng.choice([2, 3]))
+                    if not lattice:
+                        pts = [[c / 8 + rng.uniform(-0.05, 0.05) for c in q] for q in pts]
+                    bf = rng.choice([0.0, 0.5, 1.0, 0.4])
+                    out.append({"class": f"gencall/n{n}/k{k}/soma-{soma}/{'lattice' if lattice else 'float'}", "points": pts, "bf": bf, "k": k,
+                                "exclude_soma": rng.random() < 0.5, "soma": soma, "api": "mst" if bf == 0.0 and rng.random() < 0.5 else "cuntz"})
+        for bad in ([1.0, 2.0], [1.0, 2.0, 3.0, 4.0]):
+            out.append({"class": f"gencall/bad-soma{len(bad)}", "points": [bad] + cloud(rng, 3), "bf": 0.4, "k": 2, "exclude_soma": True, "soma": "list",
+                        "api": "cuntz"})
+        return out
+
+    @staticmethod
+    def inputs(case):
+        rows = case["points"]
+        if case["soma"] == "none":
+            return np.array(rows, dtype=np.float64), None
+        s = [float(c) for c in rows[0]]
+        return np.array(rows[1:], dtype=np.float64).reshape((-1, 3)), (s if case["soma"] == "list" else np.array(s, dtype=np.float64))
+
+    def run(self, case):
+        from swcgeom.transforms import PointsToCuntzMST, PointsToMST
+
+        pts, soma = self.inputs(case)
+        if case["api"] == "mst":
+            tr = PointsToMST(case["k"], exclude_soma=case["exclude_soma"], sort=False)
+        else:
+            tr = PointsToCuntzMST(bf=case["bf"], furcations=case["k"], exclude_soma=case["exclude_soma"], sort=False)
+        tg, ts = int(tr.types.glia_processes), int(tr.types.soma)
+        try:
+            t = tr(pts, soma)
+        except Exception as e:  # noqa: BLE001 - the generated definition must raise too
+            return {"raised": type(e).__name__, "tg": tg, "ts": ts}
+        r = t.r().tolist()
+        return {"id": t.id().tolist(), "type": t.type().tolist(), "x": t.x().tolist(), "y": t.y().tolist(), "z": t.z().tolist(), "r": r,
+                "pid": t.pid().tolist(), "tg": tg, "ts": ts}
+
+    def lines(self, case, res):
+        if not isinstance(res, dict) or "exc" in res:
+            return []
+        frs = lambda row: ",".join(str(Fraction(float(v))) for v in row) if len(row) else "_"
+        pts, soma = self.inputs(case)
+        somas = "-" if soma is None else frs(list(soma))
+        args = f"bf={Fraction(case['bf'])} k={case['k']} ex={int(case['exclude_soma'])} tg={res['tg']} ts={res['ts']} soma={somas} p={';'.join(frs(q) for q in pts)}"
+        if "raised" in res:
+            return [(f"gmstcall {args} d=", "E")]
+        _, amb = reference(case["points"], case["bf"], -1, True, 1e-9)        # near-ties are resolved by float rounding: skip
+        if amb and len(case["points"]) > 2:
+            return []
+        P = np.array(case["points"], dtype=np.float64)
+        d = np.linalg.norm(P.reshape((-1, 1, 3)) - P.reshape((1, -1, 3)), axis=2)
+        table = {}
+        for i, a in enumerate(case["points"]):
+            for j, b in enumerate(case["points"]):
+                key = tuple(Fraction(float(x)) - Fraction(float(y)) for x, y in zip(a, b))
+                if table.setdefault(key, float(d[i, j])) != float(d[i, j]):
+                    return []          # the float norm is not a function of the EXACT difference vector on this cloud
+        if len(set(res["r"])) != 1:
+            return [(f"gmstcall {args} d={';'.join(frs(row) for row in d)}", f"radius column is not constant: {res['r'][:8]}")]
+        # `Tree.__init__` stores x, y, z, r as float32: the real tree's column must be the float32 cast of the generated (float64) column
+        allp = [[float(c) for c in q] for q in case["points"]]
+        cols = []
+        for k, name in enumerate("xyz"):
+            col = [q[k] for q in allp]
+            cols.append(col if [float(np.float32(c)) for c in col] == [float(c) for c in res[name]] else res[name])
+        want = "|".join([gen.ints(res["id"]), gen.ints(res["type"]), frs(cols[0]), frs(cols[1]), frs(cols[2]), str(Fraction(float(res["r"][0]))),
+                         gen.ints(res["pid"])])
+        return [(f"gmstcall {args} d={';'.join(frs(row) for row in d)}", want)]
+
+    def nontrivial(self, case, res):
+        return len(case["points"]) >= 3 and "raised" not in res
+
+
 MST = MstSuite()
-SUITES = [MST, ReuseSuite(), GenLoopSuite()]
+SUITES = [MST, ReuseSuite(), GenLoopSuite(), GenCallSuite()]
 TECHNIQUE = ("Lean 4 theorems about the model of the greedy loop (mask invariant: open cells are exactly connected-unsaturated source × unconnected target; each "
              "iteration connects one new point to an earlier one with the least edge + bf·path cost; child counts never exceed the limit; n-1 iterations give a "
              "spanning tree rooted at 0; for bf = 0 and no limit the exchange argument carried through the whole loop: the returned tree is no longer than any connected spanning edge list, and is itself one) + differential correspondence on the code's own distance matrix + independent re-simulation of the stated rule and a "
